@@ -90,6 +90,7 @@ type c23SignerCfg struct {
 	notBefore  time.Time
 	expiration time.Time
 	kind       string
+	fault      *c23FaultKey // wrapper around key.Priv handed to the extender (c23fault.go); nil = the bare key
 }
 
 type c23SignerW struct {
@@ -98,6 +99,9 @@ type c23SignerW struct {
 	ExpRelTs       float64 `json:"expiration_minus_ts_s"`
 	ExpRelNow      float64 `json:"expiration_minus_now_s"`
 	Curve          string  `json:"curve"`
+	Fault          string  `json:"sign_fault,omitempty"` // injected behaviour of the key backend in this call
+	SignCalls      int32   `json:"sign_calls"`
+	SignFails      int32   `json:"sign_calls_failed"`
 }
 
 type c23Witness struct {
@@ -121,6 +125,7 @@ type c23Witness struct {
 	History    []string          `json:"history,omitempty"` // long-lived extender: everything done with it before this call
 	Err        string            `json:"error,omitempty"`
 	Observed   map[string]any    `json:"observed,omitempty"`
+	fault      c23FaultObs
 }
 
 // fixedSigners is the SignerGen handed to the extender.
@@ -383,6 +388,9 @@ func (c *c23Ctx) witness(chain int, call string, pos int, n *c23Node, in, eg uin
 			ExpRelTs: s.expiration.Sub(ps.Info.Timestamp).Seconds(), ExpRelNow: s.expiration.Sub(now).Seconds(),
 			Curve: s.key.Priv.Curve.Params().Name,
 		})
+		if s.fault != nil && s.fault.mode != c23FaultNone {
+			w.Signers[len(w.Signers)-1].Fault = c23FaultNames[s.fault.mode]
+		}
 	}
 	return w
 }
@@ -457,22 +465,43 @@ func (c *c23Ctx) judge(kp string, wit *c23Witness, ps *seg.PathSegment, pre c23P
 	c.judgeTopo(kp, wit, &body, n, in, eg, peers)
 
 	// -- signed over info and all earlier entries and signatures, by one of the configured signers
-	var used *c23SignerCfg
+	// The signer used is determined from the entry itself: the candidate under
+	// whose public key the signature verifies (the candidates of one call have
+	// distinct keys). The key id in the signed header has to name the same signer.
+	var used, named *c23SignerCfg
+	entries := append(append([]beaconref.RawEntry(nil), pre.raws...), raw)
+	var namedErr error
+	verifying := 0
 	for i := range signers {
-		if bytes.Equal(signers[i].key.SKID, meta.SKID) {
+		verr := beaconref.VerifyEntry(&signers[i].key.Priv.PublicKey, pre.info, entries, idx)
+		if verr == nil {
+			verifying++
 			used = &signers[i]
 		}
+		if bytes.Equal(signers[i].key.SKID, meta.SKID) {
+			named, namedErr = &signers[i], verr
+		}
 	}
-	entries := append(append([]beaconref.RawEntry(nil), pre.raws...), raw)
-	if used == nil {
+	if verifying != 1 {
+		used = named // none (reported below) or, never seen, several: fall back to the key id
+	}
+	if used != nil && used != named {
+		obs["signer_by_signature"] = used.kind
+		r.Event("signer_by_signature_differs_from_key_id")
+	}
+	if named == nil {
 		r.Violation(kp+"unknown-signer", fmt.Sprintf("entry signed with key id %x which is none of the configured signers", meta.SKID), wit)
 	} else {
-		obs["signer_used"] = used.kind
-		if err := beaconref.VerifyEntry(&used.key.Priv.PublicKey, pre.info, entries, idx); err != nil {
-			r.Violation(kp+"signature", "independent verification over info + earlier entries and signatures failed: "+err.Error(), wit)
+		obs["signer_used"] = named.kind
+		if namedErr != nil {
+			r.Violation(kp+"signature", "independent verification over info + earlier entries and signatures failed: "+namedErr.Error(), wit)
 		} else {
 			r.Event("sig_verified")
+			if verifying == 1 && len(signers) > 1 {
+				r.Event("signer_identified_among_several")
+			}
 		}
+		used := named
 		// cross-check through pkg/segment's own associated-data plumbing
 		v := c23Verifier{keys: map[string]*ecdsa.PublicKey{string(used.key.SKID): &used.key.Priv.PublicKey}}
 		if err := ps.VerifyASEntry(context.Background(), v, idx); err != nil {
@@ -537,7 +566,11 @@ func (c *c23Ctx) judge(kp string, wit *c23Witness, ps *seg.PathSegment, pre c23P
 		}
 		if used != nil {
 			if exp := beaconref.HopExpiry(ps.Info.Timestamp, uint8(e)); exp.After(used.expiration) {
-				r.Violation(kp+"exp-exceeds-signer", fmt.Sprintf("%s ExpTime %d expires %v after the signer used (signer expiry - ts = %v, hop lifetime %v)",
+				key := kp + "exp-exceeds-signer"
+				if wit.fault.fired {
+					key = kp + "signer-fault:expiry-exceeds-signer-used"
+				}
+				r.Violation(key, fmt.Sprintf("%s ExpTime %d expires %v after the signer used (signer expiry - ts = %v, hop lifetime %v)",
 					what, e, exp.Sub(used.expiration), used.expiration.Sub(ps.Info.Timestamp), beaconref.ExpTimeDuration(uint8(e))), wit)
 			}
 		}
@@ -859,6 +892,9 @@ func (c *c23Ctx) extendWith(rng *rand.Rand, h *c23Hist, chain int, call string, 
 	peers := append([]uint16(nil), n.peers...)
 	tgen := time.Now()
 	signers := c23GenSigners(rng, c.w, ts, tgen, adequate, c.thorough)
+	// fault injection at the signing seam (c23fault.go): everywhere except in the
+	// call a chain of the main phase continues from
+	c23PlanFaults(rng, signers, ts, tgen, h != nil || call != "extend")
 	wit := c.witness(chain, call, pos, n, n.ingress, n.egress, peers, maxExp, epic, ps, signers, tgen)
 	kp := "C23:"
 	var ext *beaconing.DefaultExtender
@@ -877,14 +913,48 @@ func (c *c23Ctx) extendWith(rng *rand.Rand, h *c23Hist, chain int, call string, 
 	t1 := time.Now()
 	r.Eval(1)
 	var none [6]byte
+	fo := c23ObserveFaults(signers, ts, t0)
+	wit.fault = fo
+	for i, s := range signers {
+		wit.Signers[i].SignCalls, wit.Signers[i].SignFails = s.fault.calls.Load(), s.fault.fails.Load()
+	}
+	phase := "main"
+	if h != nil {
+		phase = "history"
+	}
+	if fo.armed {
+		r.Event("signer_fault_armed_" + phase)
+		c.faultClass("signer-fault/" + fo.scenario) // which signers fail x how, whatever the outcome
+	}
+	if fo.fired {
+		r.Event("signer_fault_fired_" + phase)
+	}
 	if pv != nil {
-		r.Violation(kp+"panic:"+mon.PanicSite(stack), fmt.Sprintf("Extend panicked: %v\n%s", pv, stack), wit)
+		key := kp + "panic:"
+		if fo.fired {
+			key = kp + "signer-fault:panic:"
+		}
+		r.Violation(key+mon.PanicSite(stack), fmt.Sprintf("Extend panicked: %v\n%s", pv, stack), wit)
 		return beaconref.RawEntry{}, none, false
 	}
 	if n.mustFail != "" && err != nil {
 		wit.Err = err.Error()
 		r.Class(cls + "/rejected/" + n.mustFail)
 		r.Event("history_rejected_" + n.mustFail)
+		return beaconref.RawEntry{}, none, false
+	}
+	if err != nil && fo.fired {
+		// the key backend refused to sign during this call: giving up is acceptable
+		// (the statement does not demand a retry or a fallback), whatever else holds
+		wit.Err = err.Error()
+		c.faultClass("signer-fault/" + fo.scenario + "/error")
+		r.Event("signer_fault_extend_err")
+		if !strings.Contains(err.Error(), errC23KeyBackend.Error()) {
+			r.Event("signer_fault_error_not_reported") // observation only
+		}
+		if len(ps.ASEntries) != pos {
+			r.Event("error_but_extended")
+		}
 		return beaconref.RawEntry{}, none, false
 	}
 	exp0, exp1 := c23ExpectOK(signers, ts, t0), c23ExpectOK(signers, ts, t1)
@@ -917,6 +987,16 @@ func (c *c23Ctx) extendWith(rng *rand.Rand, h *c23Hist, chain int, call string, 
 	if h != nil {
 		r.Event("history_extend_ok")
 	}
+	switch {
+	case fo.fired:
+		// signing failed at least once and Extend still delivered an entry (retry or
+		// fallback to another signer): judged like any other entry
+		c.faultClass("signer-fault/" + fo.scenario + "/ok-after-failed-sign")
+		r.Event("signer_fault_extend_ok_after_failed_sign")
+	case fo.armed:
+		c.faultClass("signer-fault/" + fo.scenario + "/ok-fault-not-reached")
+		r.Event("signer_fault_extend_ok_not_reached")
+	}
 	// success: every clause of the statement is judged on the entry, whatever the expectation was
 	// (a success without adequate signer necessarily breaks the expiry bound or uses an unknown key)
 	return c.judge(kp, wit, ps, pre, n, n.ingress, n.egress, peers, maxExp, signers, cls)
@@ -938,7 +1018,13 @@ func checkC23(r *mon.Run) {
 		"removed, re-added, added), between calls the AS key, AS MTU, MaxExpTime, signers, EPIC, StaticInfo and Task change; the " +
 		"same oracle judges every entry against the topology map handed to the last Update and the other state current at " +
 		"the call (keys C23:history:* before, C23:after-reload:* after the first reload); class reload/<role>-<change> = what " +
-		"happened to the ingress/egress/peer interface since this extender used it last"
+		"happened to the ingress/egress/peer interface since this extender used it last. Fault dimension (all calls of both " +
+		"phases except the call a main-phase chain continues from): every signer's private key is wrapped in a crypto.Signer whose " +
+		"Sign, PRNG-chosen per call and signer, works, always fails (key backend unavailable) or fails on its first call only; " +
+		"aimed at the preferred (latest-expiring covering) signer only, all signers, all but the preferred, or drawn " +
+		"independently; a failing Extend after an injected signing error is accepted, a succeeding one is judged in full with " +
+		"the signer used = the candidate whose public key verifies the entry's signature (keys C23:signer-fault:*); class " +
+		"signer-fault/<which signers fail>/<how>[/<outcome>]"
 	r.Assumptions = []string{
 		"hop-field key = PBKDF2-HMAC-SHA256(master, \"Derive OF Key\", 1000, 16) (constants of the deployed key derivation; PBKDF2 itself from the Go standard library)",
 		"well-formed domain for 'must succeed': known interfaces with non-wildcard remote ISD-AS, previous entry's Next = local AS, some signer covers [timestamp, now] and outlives timestamp + 337.5 s",
@@ -946,6 +1032,7 @@ func checkC23(r *mon.Run) {
 		"choice among several covering signers and tightness of ExpTime are recorded, not judged (the statement only bounds expiry by the signer actually used)",
 		"ECDSA signatures are randomized, so signature bytes differ between runs of the same seed; case structure does not",
 		"'neighbour behind the interface' is read from the topology for peer entries as well: a peer entry names ISD-AS, remote interface id and MTU of its peering interface, the hop entry the MTU of the ingress interface, the entry the configured AS MTU; a peer entry is demanded for every requested peer interface that the topology knows with a remote interface id, none may exist for an interface outside the request or the topology; peers without remote interface id are not judged",
+		"fault dimension: an Extend that returns an error after one of its Sign calls failed is never judged (the statement does not demand retry or fallback); if no injected fault was reached the usual expectation applies; 'preferred signer' (latest-expiring covering one) only aims the faults and names the class, it decides nothing; the candidates of one call have distinct keys, so the signature identifies the signer used",
 		"history phase: the topology current at a call is the map handed to ifstate.NewInterfaces / the last Interfaces.Update before the call (nothing is read back from the implementation); an egress interface that the last reload removed must make the extension fail; StaticInfo, EPIC and Task are varied but their output is not judged",
 	}
 	if err := beaconref.SelfTest(); err != nil {
@@ -959,7 +1046,8 @@ func checkC23(r *mon.Run) {
 	}
 	c := &c23Ctx{r: r, w: world, thorough: r.Thorough()}
 	const workers = 8
-	chains := r.Pick(1600, 40000)
+	chains := r.Pick(1800, 44000) // +12 % / +33 % for the calls that end in an injected signing failure
+	hists := r.Pick(320, 8000)
 	var wg sync.WaitGroup
 	tStart := time.Now() // phase durations are reported in the evidence only, they decide nothing
 	for wk := 0; wk < workers; wk++ {
@@ -975,7 +1063,6 @@ func checkC23(r *mon.Run) {
 	wg.Wait()
 	// history phase: long-lived extenders across topology reloads (c23hist.go)
 	tHist := time.Now()
-	hists := r.Pick(240, 6000)
 	for wk := 0; wk < workers; wk++ {
 		wg.Add(1)
 		go func() {
@@ -992,7 +1079,10 @@ func checkC23(r *mon.Run) {
 		"hop_mac_checked", "peer_mac_checked", "exp_bound_by_signer", "exp_bound_by_max",
 		"peer_entry_checked", "ingress_mtu_checked", "peer_skipped_as_expected",
 		"history_extend_ok", "history_reload", "history_key_rotated", "history_as_mtu_changed", "history_staticinfo_on",
-		"history_probe_rejected", "history_rejected_egress-removed")
+		"history_probe_rejected", "history_rejected_egress-removed",
+		// fault injection at the signing seam reached Sign in both phases, and signers were told apart by signature
+		"signer_fault_armed_main", "signer_fault_armed_history", "signer_fault_fired_main", "signer_fault_fired_history",
+		"signer_fault_extend_err", "signer_identified_among_several")
 	r.RequireClasses("probe/first-with-nonzero-ingress/rejected/originate", "probe/later-with-zero-ingress/rejected/propagate",
 		"probe/later-with-zero-ingress/rejected/terminate", "probe/both-zero/rejected/originate",
 		// a long-lived extender met every kind of in-place topology change in every role
@@ -1000,5 +1090,11 @@ func checkC23(r *mon.Run) {
 		"reload/egress-unchanged", "reload/egress-first-use",
 		"reload/ingress-rehomed", "reload/ingress-mtu-changed", "reload/ingress-readded",
 		"reload/peer-rehomed", "reload/peer-remote-id-changed", "reload/peer-remote-id-set", "reload/peer-mtu-changed",
-		"reload/peer-linktype-changed", "reload/peer-readded", "reload/peer-removed", "reload/peer-first-use")
+		"reload/peer-linktype-changed", "reload/peer-readded", "reload/peer-removed", "reload/peer-first-use",
+		// which signers' key backend failed x how (outcome-independent classes)
+		"signer-fault/preferred-fails/always", "signer-fault/preferred-fails/first-call",
+		"signer-fault/all-fail/always", "signer-fault/all-fail/first-call",
+		"signer-fault/only-covering-fails/always", "signer-fault/only-covering-fails/first-call",
+		"signer-fault/nonpreferred-fails/always", "signer-fault/nonpreferred-fails/first-call",
+		"signer-fault/noncovering-fails/always")
 }
